@@ -226,6 +226,10 @@ func vxRaceAnalyse() int {
 	panic("vxRaceAnalyse: environment-model function, not available in native replay")
 }
 
+func vxRaceAnalyseAll() int {
+	panic("vxRaceAnalyseAll: environment-model function, not available in native replay")
+}
+
 func vxYield() {
 	
 }
